@@ -1244,3 +1244,7 @@ for _p in ("C06", "C14", "C01"):
     PROPS[_p]["verus_units"] = list(PROPS[_p].get("verus_units", [])) + ["slot_reads"]
 PROPS["C06"]["claim"] = PROPS["C06"]["claim"] + " The readers those proofs take by contract are themselves proved (Verus): read_next_part / read_next_free decode the slot as the current view of the table holds it -- the record under assembly and the log overlay first, the table file only otherwise, at the slot's own offset -- and a free-list link at or beyond the fill mark is reported as corruption."
 PROPS["C01"]["claim"] = PROPS["C01"]["claim"] + " Table reads prefer the log view (Verus, unit slot_reads, for the two link readers): the file is consulted only for slots the record under assembly / log overlay does not hold."
+
+# ---------------------------------------------------------------- U23 extension: a batch that makes the tree lose two levels (seed R5-C14-2)
+M_BTTREE.harnesses.append(H("u23_two_collapses_in_one_batch", "U23", kind="bounded", shape="BTree::write_sorted_changes, two changes, the root collapses after each of them", bound="two collapses in one batch; Node::change / need_remove_root / write_plan_remove_node by contract"))
+PROPS["C14"]["claim"] = PROPS["C14"]["claim"] + " A batch that makes a btree lose several levels releases every root node it empties, each exactly once (Kani, bounded: two collapses in one write_sorted_changes call)."
